@@ -423,4 +423,4 @@ def _obligations():
 
 
 def obligations():
-    return _obligations() + [constructors_obligation(['cryomotl.Motl', 'cryomotl.EmMotl']), labels_obligation("C14"), selectors_obligation("C14"), effects_obligation("C14"), plumbing_obligation("C14"), overrides_obligation("C14"), options_obligation("C14"), handlers_obligation("C14")]
+    return _obligations() + [constructors_obligation(['cryomotl.Motl', 'cryomotl.EmMotl']), labels_obligation("C14"), selectors_obligation("C14"), mutations_obligation("C14"), effects_obligation("C14"), plumbing_obligation("C14"), overrides_obligation("C14"), options_obligation("C14"), handlers_obligation("C14")]
